@@ -1,3 +1,10 @@
+\* Not run by any check.  FreeOrder = TRUE lets a message handler run although a worker's death is already
+\* queued (what a multi-threaded runtime can do and engine T cannot).  TLC reports QueueBound violated here:
+\* enqueue_job hands a job to a closed worker, dispatch_job puts it back at the head of the worker queue and the
+\* function returns before the DiscardMode::Oldest shedding loop, so the worker queue exceeds the limit until the
+\* replacement has worked it off.  With Routing0 = "sticky" (MC_Factory_sticky.cfg + FreeOrder) KeyExclusive fails the
+\* same way (the parked job carries no in-flight entry, the next job of the key goes to another worker).
+\* Model-level observations; not reproduced on the real code.
 SPECIFICATION MCSpec
 CONSTANTS
   MaxW = 3
